@@ -190,7 +190,7 @@ def edit_kexmsg(payload: bytes, e: Dict[str, Any]) -> Tuple[bytes, str]:
 
 def edit_version(line: bytes, e: Dict[str, Any]) -> Tuple[bytes, str]:
     body = line.rstrip(b'\r\n')
-    op = e['op'] % 4
+    op = e['op'] % 7
 
     if op == 0:
         # change one character of the software version
@@ -206,6 +206,11 @@ def edit_version(line: bytes, e: Dict[str, Any]) -> Tuple[bytes, str]:
     elif op == 2:
         body = body.replace(b'SSH-2.0-', b'SSH-1.99-', 1)
         what = 'version:1.99'
+    elif op in (4, 5, 6):
+        # the smallest alterations of the string in front of CR LF: white
+        # space appended (the receiver strips exactly one CR, RFC 4253 4.2)
+        body += [b' ', b'\t', b'\r'][op - 4]
+        what = 'version:trailing-space'
     else:
         body = body[:-1]
         what = 'version:shorten'
@@ -383,7 +388,9 @@ def run_edit(case) -> CaseResult:
         fam = kex_family(kex)
         labels = ['kex:' + kex, 'fam:' + fam, 'target:' + e['target'],
                   'dir:' + e['dir'],
-                  'edit:' + e['target'] + ':' + editor.applied.split(':')[0],
+                  'edit:' + (editor.applied if e['target'] == 'version' else
+                             e['target'] + ':' +
+                             editor.applied.split(':')[0]),
                   fam + '/' + e['target']]
         return CaseResult(labels, True, [kex, e['target'], e['dir'],
                                          editor.applied])
@@ -414,7 +421,7 @@ def edit_strategy(tier: str):
         'target': pick(['version', 'kexinit', 'kexinit', 'kexmsg',
                                    'kexmsg', 'kexmsg']),
         'index': pick(range(3)), 'field': pick(range(13)),
-        'op': pick(range(6)), 'pos': st.integers(0, 600),
+        'op': pick(range(210)), 'pos': st.integers(0, 600),
         'bit': st.integers(0, 7)})
     return st.fixed_dictionaries({'kex': pick(methods),
                                   'edit': edit})
@@ -762,7 +769,9 @@ FAMILIES = [
     Family('edit', run_edit, strategy=edit_strategy,
            budget={'quick': 3000, 'thorough': 40000},
            required={'all': ['target:version', 'target:kexinit',
-                             'target:kexmsg', 'dir:cs', 'dir:sc'] +
+                             'target:kexmsg', 'dir:cs', 'dir:sc',
+                             'edit:version:trailing-space',
+                             'edit:version:char'] +
                      [f + '/' + t for f in ('pq-hybrid', 'curve25519',
                                             'curve448', 'ecdh-nist', 'gex',
                                             'rsa', 'dh-group')
